@@ -332,7 +332,7 @@ func TestPool(t *testing.T) {
 	pbt.Main(t, pbt.Prop[PoolCase]{
 		ID: "C06", Name: "pool",
 		Rule: "free-running mode (real parallelism, -race): 16 goroutines x 20 rounds sanitise 4..16 generated strings through one sanitizer (shared buffer pool); each result compared with the sequential reference; race detector on. Non-trivial: at least one input needed a buffer (was changed).",
-		Gen:  genPool, Run: runPool,
+		Gen:  genPool, Run: runPool, Retries: 30,
 	})
 }
 
